@@ -17,6 +17,7 @@ EXPLANATION_ADDED2 = " R2 also covers the Connect/in-use cell (shared id space) 
 EXPLANATION = EXPLANATION + " Added while testing against seeded changes: " + EXPLANATION_ADDED + EXPLANATION_ADDED2
 EXPLANATION = EXPLANATION + ' Round 10: (R5) only the stream handle and the multiplexor handle report on the dropped-flows queue (no stale report closes a re-used id); R3 also requires Drop to answer an unreplied request with false; the Options setter stores its argument (R4).'
 EXPLANATION = EXPLANATION + ' Rounds 14-15: (S9) Frame::new_bind / new_finish / new_reset are exact.'
+EXPLANATION = EXPLANATION + ' Round 19: R1 also covers the Push cells of the reaction table (stream traffic on the id of a pending bind is answered with Reset and leaves the slot alone).'
 ASSUMPTIONS = ["tokio oneshot delivers at most one value"]
 NOT_DECIDED = "independence of concurrent requests under all interleavings"
 BR = "penguin_mux::BindRequest"
